@@ -51,13 +51,25 @@ def do_check(argv):
     return ctx.finish()
 
 
+def claimed_ids():
+    import json
+    try:
+        with open(os.path.join(common.ROOT, "MANIFEST.json")) as f:
+            return [c["property_id"] for c in json.load(f).get("checks", [])]
+    except (OSError, ValueError):
+        return []
+
+
 def do_setup(argv):
+    """offline build of everything the claimed checks need: Gen regeneration, Coq cones of the claimed Props, extracted models.
+    Work in progress for properties that are not claimed is built too, but its failures only produce a warning."""
     rc = 0
     ctx = Ctx("setup", "quick", 1)
-    props = []
+    claimed = set(claimed_ids())
+    props, other = [], []
     for name in prop_modules():
-        mod = importlib.import_module("vp.props." + name)
         try:
+            mod = importlib.import_module("vp.props." + name)
             if hasattr(mod, "gen"):
                 mod.gen(ctx)
         except Exception:
@@ -65,21 +77,23 @@ def do_setup(argv):
             print("setup: Gen regeneration for %s failed (the check itself will report it)" % name)
         p = os.path.join(common.TH, "Props", name + ".v")
         if os.path.exists(p):
-            props.append(p)
+            (props if name in claimed else other).append(p)
     ok, logs, failed = common.coq_build(props)
     for v, (r, out, secs) in sorted(logs.items()):
         print("coqc %-40s rc=%d %.1fs" % (os.path.relpath(v, common.TH), r, secs))
     if not ok:
         print("setup: Coq build failed at %s\n%s" % (failed, logs[failed][1][-3000:]))
         rc = 1
+    for p in other:
+        ok2, logs2, failed2 = common.coq_build([p], timeout=300)
+        if not ok2:
+            print("setup: warning: unclaimed %s does not build yet (%s)" % (os.path.relpath(p, common.TH), os.path.relpath(failed2, common.TH)))
     ext = os.path.join(common.TH, "Extract")
     for f in sorted(os.listdir(ext)):
         if f.startswith("Ext") and f.endswith(".v"):
             g = f[3:-2]
             ok, log = common.build_model(g)
-            print("model %-12s %s %s" % (g, "ok" if ok else "FAILED", log if ok else log[-2000:]))
-            if not ok:
-                rc = 1
+            print("model %-12s %s %s" % (g, "ok" if ok else "FAILED (reported by the checks that use it)", log if ok else log[-800:]))
     # project file for IDEs / coqchk users
     vs = []
     for d, _, fs in os.walk(common.TH):
@@ -99,8 +113,7 @@ def main():
         return do_setup(sys.argv[2:])
     if sys.argv[1] == "build":
         ts = [os.path.join(common.TH, a) for a in sys.argv[2:]]
-        with common.Lock():
-            ok, logs, failed = common.coq_build(ts, force=ts)
+        ok, logs, failed = common.coq_build(ts, force=ts)
         for v, (r, out, secs) in logs.items():
             print("coqc %-40s rc=%d %.1fs" % (os.path.relpath(v, common.TH), r, secs))
             if r != 0 or v in ts:
